@@ -23,7 +23,7 @@ ASSUMPTIONS = [
 ]
 SHARD_TIMEOUT = {"quick": 600, "thorough": 3000}
 
-CLASSES = ["Exception", "OSError", "BaseException"]
+CLASSES = ["Exception", "OSError", "BaseException", "ConnectionRefusedError", "BrokenPipeError", "TimeoutError", "SystemExit", "KeyError"]
 
 
 def required_counters(tier):
